@@ -561,15 +561,15 @@ func (f *format) unParse() string {
 	if f.leftDelimiter != 0 && f.leftDelimiter != f.plus {
 		b.Write([]byte{f.leftDelimiter})
 	}
+	if f.alt {
+		b.Write([]byte{'#'})
+	}
 	if f.width >= 0 {
 		b.WriteString(strconv.Itoa(f.width))
 	}
 	if f.precision >= 0 {
 		b.Write([]byte{'.'})
 		b.WriteString(strconv.Itoa(f.precision))
-	}
-	if f.alt {
-		b.Write([]byte{'#'})
 	}
 	b.Write([]byte{f.formatChar})
 	return b.String()
